@@ -302,7 +302,18 @@ def compose(fn, ir, depth=0, in_rep=False):
     out = []
     for x in ir:
         t = x["t"]
-        if t == "var" and not in_rep and depth < 4:
+        if t == "var" and in_rep and depth < 4:
+            # inside `#( .. )*` only a binding that is itself one `quote! { .. }` is inlined: a TokenStream is not iterable,
+            # quote! splices the same tokens in every round (`#(#c => Ok(#enum_ty::#v),)*`)
+            b = TY.resolve(fn, x["s"], x["span"][0])
+            toks = None
+            if b and b["kind"] == "let" and A.kind(b["pat"]) in ("Pat::Ident", "Pat::Type") and b.get("init") is not None:
+                toks = _quote_tokens(b["init"], fn)
+            if toks is not None and not any(y["t"] == "rep" for y in to_ir(toks)):
+                out.extend(compose(fn, to_ir(toks), depth + 1, in_rep))
+                continue
+            out.append(x)
+        elif t == "var" and not in_rep and depth < 4:
             b = TY.resolve(fn, x["s"], x["span"][0])
             toks = None
             if b and b["kind"] == "let" and A.kind(b["pat"]) in ("Pat::Ident", "Pat::Type") and b.get("init") is not None:
